@@ -184,6 +184,10 @@ fn run_case(ctx: &mut Ctx, abs: &Abs<i64>) {
                 adjacency_algs!(ctx, abs, &o, &e);
                 pagerank_same!(ctx, abs, &e);
             }
+            if let Some(e) = enc::matrix_holes2::<$T, _>(&au) {
+                common_algs!(ctx, abs, &o, &e);
+                adjacency_algs!(ctx, abs, &o, &e);
+            }
             if let Some(e) = enc::csr::<$T, _>(&au) {
                 common_algs!(ctx, abs, &o, &e);
                 adjacency_algs!(ctx, abs, &o, &e);
